@@ -460,3 +460,104 @@ def c09(pid, tier, replay):
 
 REGISTRY["C09"] = c09
 REGISTRY["C10"] = c10
+
+
+def fan_scenarios(seed, tier):
+    """Operation sequences for the fan-out: the lasso TLC finds on the single-mutex design (a consumer
+    stops reading, its buffer fills, it is detached) in several shapes, and seeded random sequences of
+    spawn / inject / stop / despawn obeying the life cycle; every stopped consumer is despawned later."""
+    import random
+    rng = random.Random(seed * 389 + 5)
+    scs = []
+    def add(cap, ops, fair=True):
+        scs.append({"id": len(scs) + 1, "cap": cap, "fair": fair, "ops": ops})
+    for cap in (0, 1, 2, 8):
+        ocap = max(1, cap)
+        burst = [{"op": "inject", "m": i + 1} for i in range(ocap + cap + 3)]
+        add(cap, [{"op": "spawn", "c": "a"}, {"op": "stop", "c": "a"}] + burst + [{"op": "despawn", "c": "a"}])
+        add(cap, [{"op": "spawn", "c": "a"}, {"op": "spawn", "c": "b"}, {"op": "stop", "c": "a"}] + burst +
+            [{"op": "despawn", "c": "a"}] + [{"op": "inject", "m": 50 + i} for i in range(4)])
+        add(cap, [{"op": "spawn", "c": "a"}, {"op": "spawn", "c": "b"}, {"op": "stop", "c": "a"}, {"op": "stop", "c": "b"}] + burst +
+            [{"op": "despawn", "c": "a"}, {"op": "despawn", "c": "b"}, {"op": "spawn", "c": "c"}] +
+            [{"op": "inject", "m": 50 + i} for i in range(4)])
+        add(cap, [{"op": "spawn", "c": "a"}, {"op": "stop", "c": "a"}] + burst + [{"op": "spawn", "c": "b"}, {"op": "despawn", "c": "a"}] +
+            [{"op": "inject", "m": 50 + i} for i in range(3)])
+    n = 150 if tier == "quick" else 3000
+    names = ["a", "b", "c", "d"]
+    for _ in range(n):
+        cap = rng.choice([0, 1, 2, 8])
+        state = {c: "out" for c in names}
+        ops, m = [], 0
+        for _ in range(rng.randrange(4, 40)):
+            r = rng.random()
+            c = rng.choice(names)
+            if r < 0.45:
+                m += 1
+                ops.append({"op": "inject", "m": m})
+            elif r < 0.65 and state[c] == "out":
+                state[c] = "in"
+                ops.append({"op": "spawn", "c": c})
+            elif r < 0.78 and state[c] == "in":
+                state[c] = "stopped"
+                ops.append({"op": "stop", "c": c})
+            elif state[c] in ("in", "stopped") and r >= 0.78:
+                state[c] = "gone"
+                ops.append({"op": "despawn", "c": c})
+        for c in names:
+            if state[c] == "stopped":
+                ops.append({"op": "despawn", "c": c})
+        add(cap, ops)
+    return scs
+
+
+def c15(pid, tier, replay):
+    scr = vlib.Scratch(pid)
+    out = casecheck.CaseOutcome(pid, tier, ["C15_"])
+    t0 = time.time()
+    # the design, exhaustively: all interleavings of runner, spawns, despawns, consumers
+    consts = 'CONSTANTS\n  Design = "two_mutex"\n  Consumers = %s\n  NMsg = %d\n  Cap = 1\n'
+    runs = [('{"a", "b"}', 3)] if tier == "quick" else [('{"a", "b"}', 4), ('{"a", "b", "c"}', 2)]
+    for cons, nmsg in runs:
+        cfg = ("SPECIFICATION Spec\n" + consts % (cons, nmsg) +
+               "INVARIANTS NoSendOnClosed PerConsumerOrder NoExtra DeliveredWhileConnected TypeOK\n"
+               "PROPERTIES DespawnCompletes EventuallyReceived\nCHECK_DEADLOCK FALSE\n")
+        res = vlib.run_tlc(scr, "FanOut", cfg, workers=8, timeout=2400)
+        if not res.completed:
+            raise Infra("FanOut.tla (design two_mutex, the design in the tree) does not satisfy its properties:\n" + res.tail(40))
+        out.states += res.distinct
+        out.transitions += res.generated
+        out.notes.append("FanOut.tla Design=two_mutex Consumers=%s NMsg=%d Cap=1: %d distinct states, safety + liveness hold"
+                         % (cons, nmsg, res.distinct))
+    h = scr.build()
+    if replay:
+        with open(replay) as f:
+            rp = json.load(f)
+        c = rp["case"]
+        scs = [{"id": 1, "cap": c.get("cap", 1), "fair": c.get("fair", True),
+                "ops": [{"op": o["op"], "c": o.get("c", ""), "m": o.get("m", 0)} for o in c["ops"] if o.get("m", 0) not in c.get("sentinels", [])]}]
+    else:
+        scs = fan_scenarios(vlib.seed(), tier)
+    spath = scr.fresh("fan") + ".json"
+    with open(spath, "w") as f:
+        json.dump(scs, f)
+    t = scr.fresh("fanout") + ".ndjson"
+    run_cmd([h, "fanout", spath, t], timeout=1800)
+    r = vlib.validate_trace(scr, "FanOutHistTrace", t)
+    out.add(t, r, sample_filter=lambda d: len(d.get("ops", [])) < 14)
+    if not replay:
+        t2 = scr.fresh("relay") + ".ndjson"
+        nruns = 6 if tier == "quick" else 40
+        run_cmd([h, "relay", str(nruns), "4", "300", "1", t2], timeout=600)
+        run_cmd([h, "relay", str(nruns), "16", "100", "0", t2 + ".b"], timeout=600)
+        for tf in (t2, t2 + ".b"):
+            out.add(tf, vlib.validate_trace(scr, "FanOutHistTrace", tf), sample_filter=lambda d: False)
+    out.notes.append("%d fan-out operation histories (the stopped-consumer lasso in several shapes, seeded random life cycles), "
+                     "relay runs with 4-16 concurrent emitters and a live input stream" % len(scs))
+    return out.finish(rule="one case = one history of the real DynamicFanOut (or relay) driven by an orchestrator that logs logical "
+                           "call/return times and what each consumer received; judged by FanOutHist!Judge",
+                      assumptions=["'never completes' is decided by a 2 s bound after which the goroutine dump is attached; the measured "
+                                   "latency of a completing call is microseconds",
+                                   "application shutdown (the relay returns on cancellation without draining) is outside the quantifier"])
+
+
+REGISTRY["C15"] = c15
